@@ -129,6 +129,11 @@ func Parse
       (let k = (ok ? 1 : 0) + 2 * j in evis(k, "hostsfile.(*Record).UnmarshalText")))
     invariant hs_source_tagged: isHandleSet ==> (forall j in 0..lineNum - 1:
       (let k = (ok ? 1 : 0) + 2 * j in sameView(evarg("hostsfile.(*Record).UnmarshalText", k, 0).Source, srcName)))
+    // every line gets a record of its own (a set may keep the pointer)
+    invariant hs_records_allocated: isHandleSet ==> (forall j in 0..lineNum - 1:
+      (let k = (ok ? 1 : 0) + 2 * j in allocated(evarg("hostsfile.(*Record).UnmarshalText", k, 0))))
+    invariant hs_records_distinct: isHandleSet ==> (forall i in 0..lineNum - 1: forall j in i + 1..lineNum - 1:
+      evarg("hostsfile.(*Record).UnmarshalText", (ok ? 1 : 0) + 2 * i, 0) != evarg("hostsfile.(*Record).UnmarshalText", (ok ? 1 : 0) + 2 * j, 0))
     invariant hs_valid_added: isHandleSet ==> (forall j in 0..lineNum - 1:
       (let k = (ok ? 1 : 0) + 2 * j in
        evres("hostsfile.(*Record).UnmarshalText", k, 0) == nil ==>
